@@ -74,7 +74,7 @@ func (c *cancelCtx) finish(t *vsched.Thread, err error) {
 }
 
 func (c *cancelCtx) cancel(err error, name string) {
-	vsched.Post(&vsched.Op{Name: name, Obj: c.obj, Exec: func(t *vsched.Thread, _ int) { c.finish(t, err) }})
+	vsched.Post(&vsched.Op{Name: name, Obj: c.obj, Global: true, Exec: func(t *vsched.Thread, _ int) { c.finish(t, err) }})
 }
 
 func newCancel(parent Context) *cancelCtx {
